@@ -10,7 +10,7 @@
            map orders, for permuted inputs, for inputs with entries repeated in place or appended.
    Part B  instances for the finished models: zoom change (C03), merge (C04), N-layer neighbourhoods (C08), the expansion of one
            extended ID (C10), common.Unique / Union / Difference / Intersect (C20).
-   (Overlap, key conversions and the corridor: DeterminismMore.v, which depends on models that are still being completed.)
+   (Overlap, key conversions and the corridor: DeterminismMore.v and DeterminismTile.v.)
 
    What a model of immutable values cannot express — the caller's slices are left unmodified, genuinely repeated calls in one
    process, state kept between calls — is validated at run time by the Det:<Function> entries (DC16.v, harness/props/c16). *)
